@@ -2,6 +2,7 @@ use crate::core::{CaseOut, Run, Verdict};
 
 pub mod c01;
 pub mod c02;
+pub mod c03;
 pub mod c06;
 pub mod c08;
 pub mod fmt;
@@ -10,6 +11,7 @@ pub fn run(run: &Run) -> bool {
 	match run.prop.as_str() {
 		"C01" => c01::run(run),
 		"C02" => c02::run(run),
+		"C03" => c03::run(run),
 		"C06" => c06::run(run),
 		"C08" => c08::run(run),
 		"C19" => fmt::run_c19(run),
@@ -23,6 +25,7 @@ fn replay_case(run: &Run, prop: &str, stage: &str, tape: Option<&[u16]>, v: &ser
 	match prop {
 		"C01" => c01::replay(run, stage, tape, v),
 		"C02" => c02::replay(run, stage, tape, v),
+		"C03" => c03::replay(run, stage, tape, v),
 		"C06" => c06::replay(run, stage, tape, v),
 		"C08" => c08::replay(run, stage, tape, v),
 		"C19" | "C20" => fmt::replay(run, prop, stage, tape, v),
